@@ -106,6 +106,12 @@ pub struct Sim {
     pub last_confirm: Vec<BTreeMap<Entity, u32>>,
     pub fail: Option<Fail>,
     pub locked: Vec<bool>,
+    /// per slot: replication run (`repl_epoch`) in which the bundle parts X / Y were inserted
+    pub part_epoch: Vec<[Option<u64>; 2]>,
+    /// per slot and bundle part: the part was removed while the rule did not match (removal not replicated)
+    pub leftover_ok: Vec<[bool; 2]>,
+    /// number of server frames in which replication ran
+    pub repl_epoch: u64,
     pub prespawned: Vec<Vec<Option<Entity>>>,
     /// per client: server entities for which a mapping was sent (the client may hold such a mapping although the entity
     /// is not, or never was, shown to it: mappings travel independently of visibility)
@@ -220,6 +226,9 @@ impl Sim {
             last_confirm: vec![BTreeMap::new(); n],
             fail: None,
             locked: vec![false; slots],
+            part_epoch: vec![[None, None]; slots],
+            leftover_ok: vec![[false, false]; slots],
+            repl_epoch: 0,
             prespawned: vec![vec![None; slots]; n],
             premapped: vec![BTreeSet::new(); n],
             hist_map: vec![BTreeMap::new(); n],
@@ -334,6 +343,12 @@ impl Sim {
             K::S => {
                 em.insert(S(v));
             }
+            K::X => {
+                em.insert(X(v));
+            }
+            K::Y => {
+                em.insert(Y(v));
+            }
         }
     }
 
@@ -346,6 +361,8 @@ impl Sim {
             K::O => w.get::<O>(e).is_some(),
             K::P => w.get::<P>(e).is_some(),
             K::S => w.get::<S>(e).is_some(),
+            K::X => w.get::<X>(e).is_some(),
+            K::Y => w.get::<Y>(e).is_some(),
         }
     }
 
@@ -385,6 +402,16 @@ impl Sim {
                     c.0 = v;
                 }
             }
+            K::X => {
+                if let Some(mut c) = w.get_mut::<X>(e) {
+                    c.0 = v;
+                }
+            }
+            K::Y => {
+                if let Some(mut c) = w.get_mut::<Y>(e) {
+                    c.0 = v;
+                }
+            }
         }
     }
 
@@ -408,6 +435,12 @@ impl Sim {
             }
             K::S => {
                 em.remove::<S>();
+            }
+            K::X => {
+                em.remove::<X>();
+            }
+            K::Y => {
+                em.remove::<Y>();
             }
         }
     }
@@ -648,9 +681,17 @@ impl Sim {
                     return;
                 }
                 let e = self.server.world_mut().spawn_empty().id();
+                self.part_epoch[slot] = [None, None];
+                self.leftover_ok[slot] = [false, false];
                 for &k in comps {
                     if k == K::P && !self.cfg.periodic {
                         continue;
+                    }
+                    if matches!(k, K::X | K::Y) {
+                        if !self.cfg.bundle {
+                            continue;
+                        }
+                        self.part_epoch[slot][(k == K::Y) as usize] = Some(self.repl_epoch);
                     }
                     self.insert_k(e, k);
                 }
@@ -744,6 +785,24 @@ impl Sim {
                 if self.cfg.periodic && (self.entity_has_p(slot) || k == K::P) && !self.cfg.no_exclusions {
                     return self.exclude("F4_other_change_on_entity_with_periodic_component");
                 }
+                if matches!(k, K::X | K::Y) {
+                    if !self.cfg.bundle {
+                        return;
+                    }
+                    let me = (k == K::Y) as usize;
+                    if !self.has_k(e, k) {
+                        let partner = if k == K::X { K::Y } else { K::X };
+                        // F24: a bundle completed in a later replication run than the one that saw its other part
+                        if self.has_k(e, partner) && self.part_epoch[slot][1 - me] != Some(self.repl_epoch) {
+                            if !self.cfg.no_exclusions {
+                                return self.exclude("F24_bundle_completed_in_a_later_tick");
+                            }
+                            self.flags.insert("bundle_completed_later");
+                        }
+                        self.part_epoch[slot][me] = Some(self.repl_epoch);
+                        self.leftover_ok[slot][me] = false;
+                    }
+                }
                 self.insert_k(e, k);
                 self.op();
             }
@@ -755,6 +814,18 @@ impl Sim {
                 if self.cfg.periodic && self.entity_has_p(slot) && !self.cfg.no_exclusions {
                     return self.exclude("F4_other_change_on_entity_with_periodic_component");
                 }
+                if matches!(k, K::X | K::Y) {
+                    if !self.cfg.bundle || !self.has_k(e, k) {
+                        return;
+                    }
+                    let me = (k == K::Y) as usize;
+                    self.part_epoch[slot][me] = None;
+                    // the rule matched before the removal only if the other part is there: otherwise the removal is not
+                    // replicated and a client may keep what it had
+                    if !self.has_k(e, if k == K::X { K::Y } else { K::X }) {
+                        self.leftover_ok[slot][me] = true;
+                    }
+                }
                 self.remove_k(e, k);
                 self.op();
             }
@@ -764,6 +835,9 @@ impl Sim {
                 }
                 let Some(e) = self.slots[slot] else { return };
                 if k == K::P && !self.cfg.periodic {
+                    return;
+                }
+                if matches!(k, K::X | K::Y) && !self.cfg.bundle {
                     return;
                 }
                 if self.cfg.periodic && self.entity_has_p(slot) && k != K::P && !self.cfg.no_exclusions {
@@ -1499,6 +1573,7 @@ impl Sim {
         let t = self.tick();
         let replicated = self.running && t != before;
         if replicated {
+            self.repl_epoch += 1;
             self.snapshot(t);
             self.ops_since_tick = 0;
         } else if self.ops_since_tick > 0 {
@@ -1646,6 +1721,12 @@ impl Sim {
         if let Some(c) = w.get::<S>(e) {
             m.insert("S", c.0 as u64);
         }
+        if let Some(c) = w.get::<X>(e) {
+            m.insert("X", c.0 as u64);
+        }
+        if let Some(c) = w.get::<Y>(e) {
+            m.insert("Y", c.0 as u64);
+        }
         let map = |x: Entity| match to_server {
             Some(ms) => ms.get(&x).copied().or_else(|| hist.and_then(|h| h.get(&x).copied())).map(|x| x.to_bits()).unwrap_or(u64::MAX),
             None => x.to_bits(),
@@ -1668,7 +1749,13 @@ impl Sim {
             if !self.marked[slot] {
                 continue;
             }
-            vals.insert(e, Self::comps_of(self.server.world(), e, None));
+            let mut m = Self::comps_of(self.server.world(), e, None);
+            if !(m.contains_key("X") && m.contains_key("Y")) {
+                // the bundle rule does not match: neither part is replicated
+                m.remove("X");
+                m.remove("Y");
+            }
+            vals.insert(e, m);
         }
         let mut views: Vec<BTreeSet<usize>> = Vec::new();
         for ci in 0..self.clients.len() {
